@@ -20,12 +20,23 @@ def l2_quadrature(run, rng, quick):
     from renormalizer.mps.mp import MatrixProduct
     from renormalizer.utils import CompressConfig, CompressCriteria
     rec = []
+    unsorted = []
+    nsorted = [0]
     orig = MatrixProduct._update_ms
 
     def wrapped(self, idx, u, vt, sigma=None, qnlset=None, qnrset=None, m_trunc=None):
         if sigma is not None and m_trunc is not None:
             sg = np.sort(np.abs(np.asarray(sigma, dtype=float)))[::-1]
             rec.append(float(np.sum(sg[int(m_trunc):] ** 2)))
+            # hypotheses of RenoVerif.TruncOpt.discarded_optimal: `_update_ms` keeps sigma[:m_trunc], which discards the
+            # least weight iff the spectrum arrives non-negative and in descending order (globally, across symmetry blocks)
+            raw = np.asarray(sigma, dtype=float)
+            if int(m_trunc) < len(raw) and len(raw) >= 2:
+                top = float(raw.max()) if len(raw) else 0.0
+                if np.any(raw < 0) or np.any(np.diff(raw) > 1e-12 * max(top, 1e-300)):
+                    unsorted.append(dict(idx=int(idx), m_trunc=int(m_trunc), sigma=[float(x) for x in raw]))
+                else:
+                    nsorted[0] += 1
         return orig(self, idx, u, vt, sigma, qnlset, qnrset, m_trunc)
     done = 0
     for _ in range(25 if quick else 250):
@@ -48,6 +59,7 @@ def l2_quadrature(run, rng, quick):
             mp.compress_config = CompressConfig(CompressCriteria.fixed, max_bonddim=m)
             MatrixProduct._update_ms = wrapped
             del rec[:]
+            del unsorted[:]
             try:
                 out = mp.copy().compress()
             finally:
@@ -65,6 +77,12 @@ def l2_quadrature(run, rng, quick):
         run.count(f"quadrature:{kind}:truncating={sum(1 for x in loc if x > 1e-14 * n0)}")
         tol = 1e-9 * max(n0, 1e-300)
         case = dict(kind=kind, chain=lc.dump_chain(mp), max_bonddim=m, local_discarded_weights=loc, squared_distance=d2, squared_norm=n0)
+        if unsorted:
+            run.violation(f"compress:{kind}:truncated-spectrum-not-descending",
+                          dict(case, events=unsorted[:3], what="_update_ms keeps the first m_trunc singular values; the spectrum it received is not "
+                               "non-negative and descending, so the kept set is not the set of largest values (hypothesis of "
+                               "RenoVerif.TruncOpt.discarded_optimal)"))
+        run.cov["truncations_with_descending_spectrum"] = nsorted[0]
         if abs(d2 - sum(loc)) > tol:
             run.violation(f"compress:{kind}:distance-not-root-sum-square-of-local-discarded-weights",
                           dict(case, what="on a canonical chain ||psi - compress(psi)||^2 must equal the sum of the locally discarded squared singular values "
@@ -78,7 +96,7 @@ def main():
     run = Run("C05", level="proof")
     quick = run.tier != "thorough"
     rng = np.random.default_rng(run.seed)
-    l1 = run.l1(["RenoVerif/Props/C05.lean", "RenoVerif/Props/C05Nested.lean"])
+    l1 = run.l1(["RenoVerif/Props/C05.lean", "RenoVerif/Props/C05Nested.lean", "RenoVerif/Props/C05Optimal.lean"])
     if not l1["build_ok"]:
         raise Infra("hand-written Lean library failed to build/audit: " + str(l1.get("bad")) + l1.get("log", "")[-800:])
     from renormalizer.utils import CompressConfig, CompressCriteria
